@@ -315,6 +315,11 @@ static void jitsolver_case(Toks& tk, Out& out, std::size_t ncells, std::size_t n
                                       : which == 2 ? RosenbrockSolverParameters::FourStageRosenbrockParameters()
                                       : which == 3 ? RosenbrockSolverParameters::FourStageDifferentialAlgebraicRosenbrockParameters()
                                                    : RosenbrockSolverParameters::SixStageDifferentialAlgebraicRosenbrockParameters();
+  // controls set one at a time (the others left at "not set"): the JIT parameter type must hand them on unchanged
+  if (ts_m == 3)
+    params.h_min_ = time_step / 8.0;
+  else if (ts_m == 5)
+    params.h_start_ = time_step / 4.0;
   auto load = [&](auto& state)
   {
     for (std::size_t c = 0; c < ncells; ++c)
